@@ -76,8 +76,38 @@ def gen_diagram(rng, max_n, style=None, allow_inf=True, allow_diag=True, scale=N
     return pts, style, scale, shift
 
 
+def perturbed_copy(rng, A, scale, max_n, style):
+    """B = A with most points moved a little, some dropped, some new ones: the
+    typical 'two noisy samples of one space' pair, whose optimum is a cross cost."""
+    B = []
+    lattice = style in ("lattice", "ilattice")
+    for p in A:
+        if not math.isfinite(p[1]):
+            if rng.random() < 0.5:
+                B.append(list(p))
+            continue
+        r = rng.random()
+        if r < 0.12:
+            continue
+        if lattice:
+            step = (0.5 if style == "lattice" else 1.0) * scale
+            q = [p[0] + step * rng.choice((-1, 0, 0, 1)), p[1] + step * rng.choice((-1, 0, 0, 1))]
+        else:
+            eps = rng.choice((1e-3, 0.02, 0.1)) * scale
+            q = [p[0] + eps * (rng.random() - 0.5), p[1] + eps * (rng.random() - 0.5)]
+        if q[1] < q[0]:
+            q[1] = q[0]
+        B.append(q)
+    while len(B) < max_n and rng.random() < 0.3:
+        B.extend(gen_points(rng, 1, style, scale, 0.0))
+    rng.shuffle(B)
+    return B[:max_n]
+
+
 def gen_pair(rng, max_n, allow_inf=True):
     A, style, scale, shift = gen_diagram(rng, max_n, allow_inf=allow_inf)
+    if rng.random() < 0.4:
+        return A, perturbed_copy(rng, A, scale, max_n, style)
     if rng.random() < 0.7:
         B, _, _, _ = gen_diagram(rng, max_n, style=style, scale=scale, shift=shift, allow_inf=allow_inf)
     else:
